@@ -203,6 +203,10 @@ fn parse_request(request: HeaderRequest) -> Option<(u64, header_request::Data)> 
     request.data.map(|data| (request.amount, data))
 }
 
+#[cfg(eigerco_lumina_verif)]
+#[path = "server_verif_hooks.rs"]
+pub mod verif_hooks;
+
 #[cfg(test)]
 mod tests {
     use super::{ResponseSender, *};
